@@ -18,6 +18,7 @@ structure KSrc where
   stop : Nat := 0
   adapt : Adapt := .none
   slots : Nat := 1
+  dpanic : Option Nat := none   -- fault injection: the `k`-th destruction of an element panics (KSFault.lean)
   deriving Repr, Inhabited
 
 namespace KSrc
